@@ -1,5 +1,160 @@
 package gch
 
-import "testing"
+import (
+	"reflect"
+	"strings"
+	"testing"
+	"unsafe"
+
+	"github.com/VKCOM/tl/verifh/pbt"
+	"pgregory.net/rapid"
+)
+
+// ---- C13, schema evolution on real code: regOld is generated from a TL2 schema, regNew from the same schema with
+// fields appended (all named vAdded<N>) to structs, variant field lists and function arguments. --------------------
 
 func propC13Evolution(t *testing.T, old *Registry, newer *Registry) {}
+
+type evoCase struct {
+	ValCase
+	From string `json:"from"` // older | newer: which version writes
+}
+
+// clearAdded resets every appended field inside v (Go name VAdded<N>): optional ones through their Clear method.
+func clearAdded(v reflect.Value, depth int) {
+	if depth > 40 {
+		return
+	}
+	switch v.Kind() {
+	case reflect.Ptr, reflect.Interface:
+		if !v.IsNil() {
+			clearAdded(v.Elem(), depth+1)
+		}
+	case reflect.Struct:
+		for i := 0; i < v.NumField(); i++ {
+			fv := v.Field(i)
+			name := v.Type().Field(i).Name
+			if !fv.CanSet() {
+				if !fv.CanAddr() {
+					continue
+				}
+				fv = reflect.NewAt(fv.Type(), unsafe.Pointer(fv.UnsafeAddr())).Elem()
+			}
+			if strings.HasPrefix(name, "VAdded") {
+				if v.CanAddr() {
+					if m := v.Addr().MethodByName("Clear" + name); m.IsValid() && m.Type().NumIn() == 0 {
+						m.Call(nil)
+						continue
+					}
+				}
+				fv.Set(reflect.Zero(fv.Type()))
+				continue
+			}
+			clearAdded(fv, depth+1)
+		}
+	case reflect.Slice, reflect.Array:
+		if v.Type().Elem().Kind() == reflect.Uint8 {
+			return
+		}
+		for i := 0; i < v.Len(); i++ {
+			clearAdded(v.Index(i), depth+1)
+		}
+	case reflect.Map:
+		// map values are not addressable: rebuild the entries
+		if v.IsNil() || v.Len() == 0 {
+			return
+		}
+		for _, k := range v.MapKeys() {
+			e := reflect.New(v.Type().Elem()).Elem()
+			e.Set(v.MapIndex(k))
+			clearAdded(e, depth+1)
+			v.SetMapIndex(k, e)
+		}
+	}
+}
+
+func checkEvolution(regOld, regNew *Registry, c evoCase) pbt.Result {
+	itOld, itNew := regOld.ByName(c.Item), regNew.ByName(c.Item)
+	if itOld == nil || itNew == nil {
+		return pbt.Result{Err: nil, Classes: []string{"item-not-in-both-versions"}}
+	}
+	if c.From == "older" {
+		// fields missing at the end of an object body are empty: the newer reader accepts and reproduces the bytes
+		var obj Object
+		var err error
+		if perr := call("FillRandom", func() { obj, _, err = regOld.Make(c.ValCase) }); perr != nil || err != nil {
+			return pbt.Result{Classes: []string{"value-not-available"}}
+		}
+		b1, err := tl2(obj, nil)
+		if err != nil {
+			return pbt.Result{Classes: []string{"source-not-encodable"}}
+		}
+		n := Create(itNew, c.Bytes && hasBytesVariant(itNew))
+		rest, err := readTL2(n, append(append([]byte{}, b1...), trailing...))
+		if err != nil || !eq(rest, trailing) {
+			return pbt.Fail("%s: bytes %s written by the older schema version are not read by the newer one (fields appended): %v (%d bytes left, %d expected)", c.Item, hexHead(b1), err, len(rest), len(trailing))
+		}
+		b2, err := tl2(n, nil)
+		if err != nil || !eq(b1, b2) {
+			return pbt.Fail("%s: the newer version re-encodes %s (written by the older one) as %s (%v): the missing fields were not read as empty", c.Item, hexHead(b1), hexHead(b2), err)
+		}
+		return pbt.Result{NonTrivial: len(b1) >= 3, Classes: []string{"older-to-newer"}}
+	}
+	// newer -> older: the older reader skips what was appended
+	var obj Object
+	var err error
+	if perr := call("FillRandom", func() { obj, _, err = regNew.Make(c.ValCase) }); perr != nil || err != nil {
+		return pbt.Result{Classes: []string{"value-not-available"}}
+	}
+	b2, err := tl2(obj, nil)
+	if err != nil {
+		return pbt.Result{Classes: []string{"source-not-encodable"}}
+	}
+	o := Create(itOld, c.Bytes && hasBytesVariant(itOld))
+	rest, err := readTL2(o, append(append([]byte{}, b2...), trailing...))
+	if err != nil || !eq(rest, trailing) {
+		return pbt.Fail("%s: bytes %s written by the newer schema version (fields appended) are not read by the older one: %v (%d bytes left, %d expected)", c.Item, hexHead(b2), err, len(rest), len(trailing))
+	}
+	b1, err := tl2(o, nil)
+	if err != nil {
+		return pbt.Fail("%s: the older version cannot write what it read from %s: %v", c.Item, hexHead(b2), err)
+	}
+	// expected: the newer version's encoding of the same value with every appended field cleared
+	proj := Create(itNew, c.Bytes && hasBytesVariant(itNew))
+	if rest, err := readTL2(proj, b2); err != nil || len(rest) != 0 {
+		return pbt.Result{Classes: []string{"source-does-not-read-its-own-bytes"}} // C03's business
+	}
+	if perr := call("clearAdded", func() { clearAdded(reflect.ValueOf(proj), 0) }); perr != nil {
+		return pbt.Result{Err: perr}
+	}
+	want, err := tl2(proj, nil)
+	if err != nil {
+		return pbt.Result{Classes: []string{"projection-not-encodable"}}
+	}
+	if !eq(b1, want) {
+		return pbt.Fail("%s: the older version reads %s (newer version, appended fields set) as %s; the same value without the appended fields is %s: %s", c.Item, hexHead(b2), hexHead(b1), hexHead(want), diffAt(want, b1))
+	}
+	cls := []string{"newer-to-older"}
+	if !eq(b2, want) {
+		cls = append(cls, "appended-fields-were-set")
+	}
+	return pbt.Result{NonTrivial: !eq(b2, want), Classes: cls}
+}
+
+func mainEvolution(t *testing.T, regOld, regNew *Registry) {
+	var items []Item
+	for _, it := range regOld.Items {
+		if !it.HasTL2() {
+			continue
+		}
+		if other := regNew.ByName(it.TLName()); other != nil && other.HasTL2() {
+			items = append(items, it)
+		}
+	}
+	if len(items) == 0 {
+		t.Fatalf("harness: no TL2 item is common to both schema versions of %s", regOld.SetName)
+	}
+	pbt.Run(t, "tl2-evolution/"+regOld.SetName, perType(len(items), 300, 4000), func(rt *rapid.T) evoCase {
+		return evoCase{ValCase: genVal(rt, items, false), From: rapid.SampledFrom([]string{"older", "newer", "newer"}).Draw(rt, "from")}
+	}, func(c evoCase) pbt.Result { return checkEvolution(regOld, regNew, c) })
+}
